@@ -1,2 +1,66 @@
-From Coq Require Import ZArith.
-Theorem placeholder : True. Proof. exact I. Qed.
+(** C18 — Incremental statistics, circular queues, prequential error match definitions.
+    Property theorems only; proofs are in Proofs/StatsR.v and Proofs/QueueRef.v. *)
+From Coq Require Import ZArith List Reals Bool.
+From FV Require Import NumSys RealA Py Sums Queue Stats QueueRef StatsR.
+Import ListNotations.
+
+(** Mean = arithmetic mean of all values (over R, any non-empty stream). *)
+Theorem C18_mean_closed : forall vs : list R, vs <> [] ->
+  m_mean (mean_run (A:=RealA) vs) = Rmean vs /\ m_n (mean_run (A:=RealA) vs) = Z.of_nat (length vs).
+Proof. exact mean_closed. Qed.
+Print Assumptions C18_mean_closed.
+
+(** EWMA(alpha) = sum_i alpha (1-alpha)^(t-i) x_i. *)
+Theorem C18_ewma_closed : forall (alpha : R) (vs : list R),
+  e_mean (ewma_run (A:=RealA) alpha vs) = wsum (fun k => alpha * (1 - alpha) ^ k)%R vs.
+Proof. exact ewma_closed. Qed.
+Print Assumptions C18_ewma_closed.
+
+(** CircularMean(size) = mean of the last [size] values; its counter is min(t, size). *)
+Theorem C18_circular_mean_closed : forall (size : Z) (vs : list R), (1 <= size)%Z -> vs <> [] ->
+  exists s, cmean_run (A:=RealA) (cmean_init size) vs = Ok s /\
+    c_mean s = Rmean (lastn (Z.to_nat size) vs) /\
+    c_n s = Z.of_nat (Nat.min (length vs) (Z.to_nat size)).
+Proof. exact circular_mean_closed. Qed.
+Print Assumptions C18_circular_mean_closed.
+
+(** PrequentialError(alpha) = sum alpha^(t-i) e_i / sum alpha^(t-i); the denominator is positive. *)
+Theorem C18_prequential_closed : forall (alpha : R) (es : list R), (0 < alpha <= 1)%R -> es <> [] ->
+  (0 < wsum (fun k => alpha ^ k) (map (fun _ => 1) es))%R /\
+  snd (preq_run alpha es) = (wsum (fun k => alpha ^ k) es / wsum (fun k => alpha ^ k) (map (fun _ => 1) es))%R.
+Proof. exact prequential_closed. Qed.
+Print Assumptions C18_prequential_closed.
+
+(** The ring buffer refines a bounded deque for EVERY operation sequence and capacity >= 1:
+    same outputs (evicted / dequeued elements, EmptyQueueError), same contents, same
+    length / emptiness / fullness. *)
+Theorem C18_queue_refines_deque : forall (T : Type) (max_len : Z) (ops : list (qop T)), (1 <= max_len)%Z ->
+  forall q outs d outs',
+  cq_run (cq_init max_len) ops = (q, outs) -> dq_run max_len [] ops = (d, outs') ->
+  outs = outs' /\ cq_abs q = map Some d /\ cq_inv q /\
+  cq_len q = Z.of_nat (length d) /\
+  cq_is_empty q = (match d with [] => true | _ => false end) /\
+  cq_is_full q = (Z.of_nat (length d) =? max_len)%Z.
+Proof. intros T. exact (@queue_refines_deque T). Qed.
+Print Assumptions C18_queue_refines_deque.
+
+(** A queue that was only enqueued to exposes exactly the last [max_len] items. *)
+Theorem C18_full_exposes_last : forall (T : Type) (max_len : Z) (vs : list T), (1 <= max_len)%Z ->
+  fst (dq_run max_len [] (map (@Enq T) vs)) = lastn (Z.to_nat max_len) vs.
+Proof. intros T. exact (@full_exposes_last T). Qed.
+Print Assumptions C18_full_exposes_last.
+
+(** AccuracyQueue: contents are the last [max_len] booleans and the counters count them. *)
+Theorem C18_accuracy_counts : forall (max_len : Z) (vs : list bool), (1 <= max_len)%Z ->
+  exists a, aq_run (aq_init max_len) vs = Ok a /\
+    cq_abs (a_q a) = map Some (lastn (Z.to_nat max_len) vs) /\
+    aq_num_true a = Z.of_nat (count_occ bool_dec (lastn (Z.to_nat max_len) vs) true) /\
+    aq_num_false a = Z.of_nat (count_occ bool_dec (lastn (Z.to_nat max_len) vs) false).
+Proof. exact accuracy_counts. Qed.
+Print Assumptions C18_accuracy_counts.
+
+(** Non-vacuity: a wrapped queue of capacity 2 after 3 enqueues, a dequeue and a keep-last. *)
+Example C18_nonvacuous :
+  snd (cq_run (cq_init 2) [Enq 1%Z; Enq 2%Z; Enq 3%Z; Deq; Keep; Deq; Deq]) =
+   [OEl None; OEl None; OEl (Some 1%Z); OEl (Some 2%Z); OUnit; OEl (Some 3%Z); OErr EmptyQueueError].
+Proof. vm_compute. reflexivity. Qed.
